@@ -68,6 +68,11 @@ def plan(seed: int, tier: str, n_files: int):
             # transient I/O error while the special-particle table loads: half of the time at the very first conversion of the process
             args["table_fault_before"] = 0 if rng.random() < 0.7 else rng.randrange(0, max(1, len(order) - 2))
             tags.add("table_load_fault")
+        # in half of the sessions another thread of the caller gets one turn (and prints a line) at a seeded line boundary
+        # inside each string-returning conversion; a conversion runs 10-25 thousand line events inside the package
+        if rng.random() < 0.5:
+            args["bystander"] = {str(pos): int(10 ** rng.uniform(0.3, 4.2)) for pos, (_, ri) in enumerate(order) if ampworld.REPLICAS[ri][1] == "ret"}
+            tags.add("bystander_thread_prints")
         jobs.append({"engine": ENGINE, "func": FUNC, "limit_s": 1500, "args": args, "tags": sorted(tags)})
     return jobs
 
@@ -165,7 +170,9 @@ def main(tier: str, seed: int, opts) -> int:
         "spin_factor_kinds_compared": sorted(sf_kinds),
         "fault_kinds_fired": {"clock_jump_between_replicas": stats.get("clock_jumps", 0), "stdout_sink_replaced_between_calls": stats.get("conversions", 0),
                               "special_table_load_met_io_error": stats.get("replicas_hit_by_table_load_fault", 0),
-                              "sessions_with_warnings_as_errors": tags_seen.get("warnings_as_errors", 0)},
+                              "sessions_with_warnings_as_errors": tags_seen.get("warnings_as_errors", 0),
+                              "another_thread_printed_during_a_returning_conversion": stats.get("bystander_prints_fired", 0),
+                              "bystander_turn_after_the_call_ended": stats.get("bystander_turn_after_the_call_ended", 0)},
         "simulated_time": {"clock_reads": stats.get("clock_reads", 0), "clock_jumps": stats.get("clock_jumps", 0)},
         "real_subprocess_conversions_compared": sub_checked,
         "regression_replays_run": n_reg,
@@ -183,6 +190,7 @@ def main(tier: str, seed: int, opts) -> int:
         "the recording goofit module exports the names the generator targets (Variable with 2-5 arguments, the four lineshape kinds, 16 spin factors, 18 mass-index constants)",
         "a symbol that a lineshape needs but the input file never defines is the property's precondition failing; such symbols are injected and excluded from the closure clause",
         "the C++ text is read by patterns of the generator's own templates; column padding and declaration order are ignored",
+        "the second caller thread is simulated as one action (a print to the process's stdout) run at a seeded line boundary of a string-returning conversion; it never touches the library, whose process-wide state rules out concurrent conversions",
     ]
     ev.write()
     log(f"[C19] sessions={len(jobs)} files={files_total} conversions={stats.get('conversions')} violations={len(rep.violations)} known={len(rep.known)}")
